@@ -196,6 +196,39 @@ def _standin(rep, tier, seed, only_search=False):
             want = _feasible_bruteforce(ev, eu, d)
             if bool(got) != want:
                 rep.violation("check_assignment_feasibility(%s, %s, %d) = %r, brute force %r" % (v, u, d, got, want), "mgh:feasibility-value", {"input": {"v": v, "u": u, "d": d}, "observed": bool(got), "expected": want})
+    # the two table helpers of the lower bound against their definitions: one frequency distribution per row (entry j = number of
+    # points at distance max_d - j), and the unique maximal distributions under the dominance order of the sorted vectors
+    def dominated(v, u):
+        # v < u  iff the entries of v can be matched to strictly larger entries of u (sorted comparison), v != u as multisets
+        ev = sorted([d for d, c in v for _ in range(c)])
+        eu = sorted([d for d, c in u for _ in range(c)])
+        return len(ev) == len(eu) and all(a <= b for a, b in zip(ev, eu)) and ev != eu
+    for _ in range(40 if tier == "quick" else 800):
+        A = _rand_graph(rng, rng.randint(3, 8), p=rng.choice([0.3, 0.5]))
+        DX = dist_matrix(A).astype(int)
+        md = int(DX.max()) + rng.randint(0, 1)
+        DXc = G.cast_distance_matrix_to_optimal_int_type(DX.copy())          # as estimate() hands it over: narrowest integer type
+        R = G.represent_distance_matrix_rows_as_distributions(DXc, DXc.dtype.type(md))
+        evals += 1
+        want = np.array([[int(np.sum(DX[i] == md - j)) for j in range(md)] for i in range(len(DX))])
+        if R.shape != want.shape or not np.array_equal(np.asarray(R, dtype=int), want):
+            rep.violation("represent_distance_matrix_rows_as_distributions: table %s differs from the distance frequencies %s (graph on %d vertices, max_d=%d)" % (np.asarray(R).tolist(), want.tolist(), len(DX), md),
+                          "mgh:distribution-table", {"input": {"DX": DX.tolist(), "max_d": md}, "observed": np.asarray(R).tolist(), "expected": want.tolist()})
+            if only_search:
+                return
+            break
+        U = G.find_unique_max_distributions(R)
+        rows = [tuple(int(x) for x in r) for r in np.asarray(R)]
+        as_pairs = lambda r: [(md - j, c) for j, c in enumerate(r)]
+        maximal = {r for r in rows if not any(dominated(as_pairs(r), as_pairs(o)) for o in rows)}
+        got = {tuple(int(x) for x in r) for r in np.asarray(U)}
+        evals += 1
+        if got != maximal or len(np.asarray(U)) != len(got):
+            rep.violation("find_unique_max_distributions returned %s; the unique maximal rows of %s are %s" % (sorted(got), rows, sorted(maximal)), "mgh:unique-max-rows",
+                          {"input": {"distributions": [list(r) for r in rows]}, "observed": sorted(got), "expected": sorted(maximal)})
+            if only_search:
+                return
+            break
     # bounded curvature: a principal submatrix with all off-diagonal entries >= d
     for _ in range(40 if tier == "quick" else 800):
         A = _rand_graph(rng, rng.randint(3, 7))
